@@ -34,16 +34,21 @@ ASSUMPTIONS = ['ValLaws (equal_encoding is an equivalence, strict_equal implies 
                'then, in any order and number: calc deltas that name existing rows and whose first `before` equals the current '
                'cell up to encoding (SC2); RenameColumn/RenameTable whatever is pending; any lossless doc action (no formula '
                'column with values removed, no ReplaceTableData on a table with formula columns, no ModifyColumn changing the '
-               'type) that does not write, create or destroy a cell with a pending delta (SC1); the doModifyColumn triple ModifyColumn / conversion delta / per-column '
-               'flush for a column without pending delta, type changes included, provided every converted row has its '
-               'pre-ModifyColumn value as `before` and every other row survives the type round trip (Column.set under the new '
-               'type keeps the encoding)',
-               'NOT proved: removals (and other writes) of cells that have a pending delta (front-inserted restores), '
-               'doModifyColumn on a column that has a pending delta, data->formula ModifyColumn with a type change, lossy doc '
-               'actions inside a bundle with their summary-side restores; these are covered by the event-trace tie and the '
-               'implementation oracles only. The full statement is false of the faithful model: '
+               'type) that does not write or create a cell with a pending delta (SC1) -- BulkRemoveRecord, RemoveColumn (data '
+               'column) and RemoveTable MAY remove cells with a pending delta; the doModifyColumn triple ModifyColumn / '
+               'conversion delta / per-column flush, type changes included, also on a column that already has a pending delta, '
+               'provided (per row) the popped delta starts from the value before, changed rows hold the converted value and all '
+               'other rows survive the type round trip; and, at the end, every restore that the final flush inserts at the FRONT '
+               'of the undo list writes values of the start document into existing cells of the start document and covers the '
+               'removed cells (fronts_okb, computed from the final summary)',
+               'NOT proved: writes (BulkUpdateRecord, BulkAddRecord, ReplaceTableData) to cells that have a pending delta, '
+               'front-inserted restores that do not carry the start value (the bundle wrote the cell before the recalculation: '
+               'known finding), data->formula ModifyColumn with a type change, lossy doc actions inside a bundle with their '
+               'summary-side restores; these are covered by the event-trace tie and the implementation oracles only. The full '
+               'statement is false of the faithful model: '
                'C01_refuted_to_formula_type_change, C01_refuted_front_restore_written_cell (each replayed on the engine: known '
-               'findings); the former third witness (removed table with rows added in the bundle) was repaired in /repo '
+               'findings; the latter is rejected by bundle_ok3 exactly at the final check: C01_refuted_witness_outside_class); '
+               'the former third witness (removed table with rows added in the bundle) was repaired in /repo '
                '(b239974), the model follows the repaired code and keeps it as C01_regression_removed_table_new_row']
 TECHNIQUE = ('Coq proofs over a hand-written executable model of the action log (per-action inverse lemmas, congruence with '
              'exception sets carried through renames, ActionSummary invariants: created cells / presence maps / LabelRenames, '
@@ -51,16 +56,19 @@ TECHNIQUE = ('Coq proofs over a hand-written executable model of the action log 
              'oracles on the implementation')
 LEVEL_TEXT = ('Kernel-checked for all documents and all bundles that pass the computable side conditions bundle_ok3 (doc actions, '
               'calc deltas, renames after calc deltas, the ModifyColumn / conversion delta / per-column flush triples of '
-              'doModifyColumn incl. type changes, any lossless doc action that keeps off the cells with a pending delta): replaying the undo list in reverse restores tables, schema, '
+              'doModifyColumn incl. type changes and pending deltas, any lossless doc action that keeps off the cells with a '
+              'pending delta, removals of records / data columns / tables with pending deltas whose front-inserted restores '
+              'carry start values): replaying the undo list in reverse restores tables, schema, '
               'row ids and every cell up to encoding; every doc action kind is inverted by its own undo (exact exception '
               'sets); undo of whole histories bundle by bundle; well-formedness preserved. The full statement over arbitrary '
               'interleavings is refuted by two kernel-checked witnesses, which are real engine defects (known findings). '
               'The model is compared with the running engine on recorded event traces of random histories on every run, and '
               'the share of real traces that satisfy the hypotheses of the proved theorem is reported.')
 LEVEL_NOTE = ('kernel strength: the theorems are about the action log (docactions/action_summary/action_obj), not about '
-              'useractions.py. Stage 3 is proved for renames, for the per-column flushes of doModifyColumn and for doc actions '
-              'that keep off the pending cells; removals of cells with a pending delta are _partial: validated by trace '
-              'refinement and oracles only.')
+              'useractions.py. Stage 3 is proved for renames, the per-column flushes of doModifyColumn, doc actions that keep '
+              'off the pending cells and removals of cells with a pending delta (under the computable final check on the '
+              'front-inserted restores); writes to cells with a pending delta and lossy actions are _partial: validated by '
+              'trace refinement and oracles only.')
 PROOF_TIMEOUT = 900
 
 
@@ -174,7 +182,7 @@ def search(ctx):
                       k['witness'])
   # fixed templates, always run: value-dependent (counter) trigger formulas read by a formula column whose id sorts
   # before / after them; edits and adds of the dependency, an explicit value for the trigger cell, a removed row
-  for kind, what, rep in K.counter_search(PROP, [], 4):
+  for kind, what, rep in K.template_search(PROP):
     ctx.count(('template', kind), nontrivial=True, kind='template')
     ctx.violation(kind, what, rep)
   res = getattr(ctx, '_k1', None) or K.traced_run(ctx, *sizes(ctx))
